@@ -9,8 +9,8 @@
    vanishing at the listed first-level nodes is a kernel witness. *)
 From Coq Require Import List NArith ZArith Arith Bool Lia Field Ring.
 Import ListNotations.
-Require Import V.base.Fld V.model.LinAlg V.model.Poly V.model.Access V.model.Msp V.model.Kw.
-Require Import V.proofs.LinAlg_proofs V.proofs.Poly_proofs V.proofs.Span_proofs V.proofs.Msp_proofs
+Require Import V.base.Fld V.model.LinAlg V.model.Poly V.model.Interp V.model.Access V.model.Msp V.model.Kw.
+Require Import V.proofs.LinAlg_proofs V.proofs.Poly_proofs V.proofs.Interp_proofs V.proofs.Birkhoff_proofs V.proofs.Span_proofs V.proofs.Msp_proofs
                V.proofs.Kw_proofs V.proofs.Families_proofs.
 
 Section Hier.
@@ -79,7 +79,7 @@ Proof.
   destruct k as [|k'] eqn:Ek; [discriminate|]. rewrite <- Ek in *.
   set (g := fun id => match hier_rank levels id with
                       | None => None
-                      | Some j => Some (map (fun c => phi K fromN c (fromN id) j) (seq 0 k))
+                      | Some j => Some (map (fun c => phi K c (fromN id) (N.of_nat j)) (seq 0 k))
                       end) in *.
   destruct (forallb _ (map g hs)) eqn:Eall; [|discriminate].
   unfold new_msp in Hind. destruct (_ && _) eqn:Echk; [|discriminate]. inversion Hind; subst m. clear Hind.
@@ -100,7 +100,7 @@ Proof.
   change (forall id, In id ids -> In id hs) in Hknown.
   rewrite Hz.
   assert (Hrl : forall id v, In (id, v) rl -> exists j, hier_rank levels id = Some j /\
-              v = map (fun c => phi K fromN c (fromN id) j) (seq 0 k)).
+              v = map (fun c => phi K c (fromN id) (N.of_nat j)) (seq 0 k)).
   { intros id v Hin. unfold rl in Hin. rewrite Hrows, (combine_map_r (fun id => match g id with Some x => x | None => [] end) hs) in Hin.
     apply in_map_iff in Hin. destruct Hin as [id' [E Hid']]. inversion E; subst id'.
     specialize (Hsome id Hid'). unfold g in *. destruct (hier_rank levels id) as [j|]; [|congruence].
@@ -146,10 +146,8 @@ Proof.
     destruct (memN id ps1) eqn:Em.
     + (* first-level holder: a scaled Vandermonde row *)
       inversion Hj; subst j. apply memN_In in Em.
-      assert (E : map (fun c0 => phi K fromN c0 (fromN id) 0) (seq 0 k) =
-                  map (fun c0 => fromN 1%N * fpow K (fromN id) c0) (seq 0 k)).
-      { apply map_ext. intros c0. unfold phi. cbn [Nat.ltb Nat.leb falling]. now rewrite Nat.sub_0_r. }
-      rewrite E, (dot_scaled_pows (fromN 1%N) (fromN id) k 0 _ Hlw).
+      rewrite (birkhoff_row_action K HK k (fromN id) (N.of_nat 0) _ Hlw). cbn [N.of_nat N.to_nat pderiv_iter].
+      rewrite (peval_eq_peval_r K HK).
       rewrite (peval_r_pad K HK). unfold P. rewrite (peval_r_pscale K HK), (peval_r_pprod_lin K HK).
       assert (Ez : fprod_sub K (fromN id) nodes = 0).
       { apply (fprod_sub_eq_0_iff K HK). unfold nodes. apply in_map. apply HS1. auto. }
@@ -158,9 +156,9 @@ Proof.
       assert (Hjge : (t1 <= j)%nat).
       { destruct Hincr as [_ Hi]. exact (rank_from_ge rest t1 id j Hi Hj). }
       apply (dot_all_zero K HK). intros c0.
-      rewrite (nth_map_seq (fun c1 => phi K fromN c1 (fromN id) j) k 0 c0 0).
-      destruct (Nat.ltb c0 k); [|ring]. cbn [plus]. unfold phi.
-      destruct (Nat.ltb c0 j) eqn:Ecj; [ring|]. apply Nat.ltb_ge in Ecj.
+      rewrite (nth_map_seq (fun c1 => phi K c1 (fromN id) (N.of_nat j)) k 0 c0 0).
+      destruct (Nat.ltb c0 k); [|ring]. cbn [plus].
+      destruct (Nat.ltb c0 j) eqn:Ecj; [apply Nat.ltb_lt in Ecj; rewrite (phi_gt K) by (rewrite Nat2N.id; lia); ring|]. apply Nat.ltb_ge in Ecj.
       rewrite nth_app_zeros by lia. ring.
   - rewrite <- (peval_r_at_0 K HK). rewrite (peval_r_pad K HK). unfold P.
     rewrite (peval_r_pscale K HK), (peval_r_pprod_lin K HK). unfold c. apply (finv_l K HK). exact Hp0.
